@@ -10,8 +10,8 @@ echo "--- 43 tests with the change:"
 cargo test --workspace --no-fail-fast --offline 2>&1 | grep -E "^test result|FAILED|panicked" | head -8
 git apply "$2" || { echo "DEMO DOES NOT APPLY"; exit 3; }
 echo "--- demonstration WITH the change (should fail):"
-( eval "timeout 600 $3" ) 2>&1 | grep -E "^test result|FAILED|panicked|error(\[|:)|failed|passed|ok$" | head -8
+( eval "timeout 600 $3" ) 2>&1 | grep -E "^test result|FAILED|FAIL|PASS|panicked|error(\[|:)|failed|passed|ok$|exit=" | head -8
 git apply -R "$1" || { echo "cannot revert patch"; exit 3; }
 echo "--- demonstration WITHOUT the change (should pass):"
-( eval "timeout 600 $3" ) 2>&1 | grep -E "^test result|FAILED|panicked|error(\[|:)|failed|passed|ok$" | head -8
+( eval "timeout 600 $3" ) 2>&1 | grep -E "^test result|FAILED|FAIL|PASS|panicked|error(\[|:)|failed|passed|ok$|exit=" | head -8
 git checkout -q -- . ; git clean -fdq -e target
